@@ -281,6 +281,7 @@ type Trace struct {
 	Sent      [][]uint64         // per link: values the producer put on it (completed or pending)
 	Completed []int              // per link: transfers fully completed (all consumers took the value)
 	Deadlock  bool               // evaluation stopped because nothing could move
+	LastXfer  []int              // per processor: Steps value at its last completed transfer (-1: none)
 	Opaque    bool               // an opcode without model semantics was executed: only the flow is meaningful
 	Steps     int
 }
@@ -323,8 +324,10 @@ func (n *Net) Eval(ext [][]uint64, maxOut, maxSteps int) Trace {
 		placed bool
 	}
 	st := make([]cpState, len(n.CPs))
+	tr.LastXfer = make([]int, len(n.CPs))
 	for c := range st {
 		st[c].regs = make([]uint64, n.CPs[c].NReg)
+		tr.LastXfer[c] = -1
 	}
 	enough := func() bool {
 		for _, o := range tr.Out {
@@ -388,6 +391,7 @@ func (n *Net) Eval(ext [][]uint64, maxOut, maxSteps int) Trace {
 					ls[li].taken[k] = true
 					s.regs[in.A] = ls[li].val
 					tr.Captured[[2]int{c, in.B}] = append(tr.Captured[[2]int{c, in.B}], ls[li].val)
+					tr.LastXfer[c] = tr.Steps
 					adv = true
 				}
 			case "out":
@@ -416,6 +420,7 @@ func (n *Net) Eval(ext [][]uint64, maxOut, maxSteps int) Trace {
 					l.full = false
 					s.placed = false
 					tr.Completed[li]++
+					tr.LastXfer[c] = tr.Steps
 					adv = true
 				}
 			case "rset":
